@@ -15,6 +15,8 @@ THEOREMS = [
     ("EG.props.C10", "C10_stream_single_attempt"),
     ("EG.props.C10", "C10_timeout_is_408"),
     ("EG.props.C10", "C10_timeout_never_hangs"),
+    ("EG.props.C10", "C10_failure_response_is_gateways"),
+    ("EG.props.C10", "C10_backend_response_is_last_attempts"),
     ("EG.props.C10", "C10_breaker_records_once"),
     ("EG.props.C10", "C10_breaker_wrapper_records_once"),
     ("EG.props.C10", "C10_breaker_run_records"),
@@ -37,10 +39,11 @@ RULE = ("cases: retry = RetryPolicy.Wrap (+ breaker wrapper closed / forced open
         "(success at attempt s, all fail, panic; cancellation injected inside attempt k; random|exponential, factor k/8, waits 1ns..5ms, "
         "40-100ms in front of a cancellation, 1ns with factor<1/2 for the zero-wait select race, maxAttempts 0); "
         "pool = Proxy with one pool (retry, timeout 60-80ms, breaker, failureCodes) serving 1-5 requests with a per-attempt scripted "
-        "transport (status / network error / block until context done / panic, stream bodies, client cancellation); "
+        "transport (status / network error / block until context done / panic / header in time then body breaks, stalls past the deadline or "
+        "exceeds serverMaxBodySize; stream bodies of declared and unknown length consumed by every attempt; client cancellation); "
         "non-trivial = validated policy; classes (retry) add: >1 attempt(+1) success after failure(+2) cancel(+4) exhausted(+8) breaker(+16) "
         "exponential(+32) panic(+64) attempt after cancel in the zero-wait race(+128); (pool): >1 attempt(+1) stream(+2) timeout(+4) breaker(+8) "
-        "cancel(+16) failureCode(+32) success after retry(+64) panic(+128); distinct = distinct (group, input) hashes among non-trivial cases")
+        "cancel(+16) failureCode(+32) success after retry(+64) panic(+128) internalError from a body fault(+256) unknown-length stream(+512); distinct = distinct (group, input) hashes among non-trivial cases")
 TRUSTED_BASE = [
     "model coq/model/Retry.v is hand-written; tied to pkg/resilience and pkg/filters/proxy by the per-run correspondence (sampled)",
     "float64 back-off arithmetic modelled as exact rationals (harness uses dyadic factors and small bases so that float64 is exact)",
@@ -95,8 +98,9 @@ def encode(c):
         for rq, ou in zip(reqs, outs):
             qs.append(Rec(q_stream=B(rq["stream"]),
                           q_script=L([T(Z(a), Z(b)) for a, b in rq.get("script") or []]),
-                          q_cancel=Z(rq["cancel"]),
+                          q_cancel=Z(rq["cancel"]), q_clen=Z(rq.get("clen", 0)),
                           q_calls=Z(ou["calls"]), q_res=Z(ou["res"]), q_status=Z(ou["status"]),
+                          q_from=Z(ou.get("from", -1)), q_plen=Z(ou.get("plen", 0)), q_bodies=Z(ou.get("bodies", 0)),
                           q_gaps=L([Z(x) for x in ou.get("gaps") or []])))
         return Rec(k_retry=B(i["retry"]), k_pol=_pol(i), k_timeout=Z(i["timeout"]), k_cb=B(i["cb"]),
                    k_fcodes=L([Z(x) for x in i.get("fcodes") or []]), k_reqs=L(qs),
@@ -133,6 +137,8 @@ def distribution(cases):
                 d["pool_results"][r] = d["pool_results"].get(r, 0) + 1
                 d["cancels"] += rq["cancel"] >= 0
                 d["streams"] += bool(rq["stream"])
+                d["unknown_length_streams"] = d.get("unknown_length_streams", 0) + (bool(rq["stream"]) and rq.get("clen", 0) == 1)
+                d["body_fault_attempts"] = d.get("body_fault_attempts", 0) + sum(1 for a in (rq.get("script") or [])[:ou["calls"]] if a[0] in (4, 5, 6))
                 d["timeouts"] += ou["res"] == 2
     return d
 
